@@ -61,9 +61,14 @@ def run_unit(args):
             fn(S)
         except Exception as e:
             from lvc import ir as _ir
+            tb_files = [fs.filename for fs in traceback.extract_tb(e.__traceback__)]
             if isinstance(e, _ir.Unsupported):
                 # the code under contract uses something the translator does not model: undecided, never a verdict
                 S._record("unit-undecided", "undecided", reason=f"unsupported by the translator: {e}")
+            elif any(f.startswith("/repo/") for f in tb_files):
+                # the code under contract raised while being extracted on symbolic inputs (e.g. not typeable with symbolic sizes):
+                # undecided for the obligations of this unit, never a verdict
+                S._record("unit-undecided", "undecided", reason=f"the code under contract raised during symbolic extraction: {type(e).__name__}: {str(e)[:300]}")
             else:
                 S._record("unit-crash", "error", reason=f"{type(e).__name__}: {e}", trace=traceback.format_exc()[-3000:])
         for r in S.results:
